@@ -56,7 +56,7 @@ func (j *JsonConverter) importSchema() error {
 func (j *JsonConverter) importFullType(fullType *FullType) (err error) {
 	switch fullType.Kind {
 	case SCALAR:
-		j.doc.ImportScalarTypeDefinition(fullType.Name, fullType.Description)
+		j.importScalar(fullType)
 	case OBJECT:
 		err = j.importObject(fullType)
 	case ENUM:
@@ -69,6 +69,18 @@ func (j *JsonConverter) importFullType(fullType *FullType) (err error) {
 		err = j.importInputObject(fullType)
 	}
 	return
+}
+
+func (j *JsonConverter) importScalar(fullType *FullType) {
+	var directiveRefs []int
+	if fullType.SpecifiedByURL != nil {
+		directiveRefs = append(directiveRefs, j.importSpecifiedByDirective(*fullType.SpecifiedByURL))
+	}
+
+	j.doc.ImportScalarTypeDefinitionWithDirectives(
+		fullType.Name,
+		fullType.Description,
+		directiveRefs)
 }
 
 func (j *JsonConverter) importObject(fullType *FullType) error {
@@ -280,4 +292,15 @@ func (j *JsonConverter) importDeprecatedDirective(reason *string) (ref int) {
 	}
 
 	return j.doc.ImportDirective(DeprecatedDirectiveName, args)
+}
+
+func (j *JsonConverter) importSpecifiedByDirective(url string) (ref int) {
+	valueRef := j.doc.ImportStringValue([]byte(url), strings.Contains(url, "\n"))
+	value := ast.Value{
+		Kind: ast.ValueKindString,
+		Ref:  valueRef,
+	}
+	j.doc.AddValue(value)
+
+	return j.doc.ImportDirective(SpecifiedByDirectiveName, []int{j.doc.ImportArgument("url", value)})
 }
